@@ -115,9 +115,16 @@ func mkReader(env *Env, r *world.SimReader, res *Result) io.Reader {
 	return r
 }
 
+// SkipCanon: long histories (C14) do not canonicalise the result of every call.
+var SkipCanon bool
+
 func setExif(res *Result, e exif2.Exif, err error) {
 	res.Exif = &e
-	res.Fields = CanonExif(e)
+	if SkipCanon {
+		res.Fields = &Fields{}
+	} else {
+		res.Fields = CanonExif(e)
+	}
 	res.Err = CanonErr(err)
 	res.ErrNil = err == nil
 }
